@@ -1,3 +1,86 @@
+/-
+  Lemmas/ConsStream.lean — helper lemmas for the stream-record part of property C20: the fallback analogues of
+  `rolling_getR` / `sums_snd`, and the record `All.streamCounts` builds once its four lists are known.
+-/
 import CircuitProofs.Lemmas.Cons
 namespace CM.Cons
+open CM CM.SpecC13 CM.SpecC20
+
+theorem cstr_fbTimesOf_filter_length (k : FbKind) (p : Int → Bool) (l : List (FbKind × Int)) :
+    ((fbTimesOf k l).filter p).length = (l.filter fun (k', t) => k' == k && p t).length := by
+  induction l with
+  | nil => rfl
+  | cons x l ih =>
+    obtain ⟨k', t⟩ := x
+    unfold fbTimesOf at ih ⊢
+    by_cases hk : (k' == k) = true
+    · by_cases hp : p t = true
+      · simp [hk, hp, ih]
+      · simp [hk, hp, ih]
+    · simp [hk, ih]
+
+theorem cstr_mem_fbTimesOf {k : FbKind} {t : Int} {emits : List Emit} (h : t ∈ fbTimesOf k (emits.filterMap fbOf)) :
+    ∃ d, Emit.fb k t d ∈ emits := by
+  unfold fbTimesOf at h
+  obtain ⟨⟨k', t'⟩, hx, rfl⟩ := List.mem_map.mp h
+  obtain ⟨hx, hk⟩ := List.mem_filter.mp hx
+  obtain ⟨e, he, hr⟩ := List.mem_filterMap.mp hx
+  have hk' : k' = k := by simpa using hk
+  subst hk'
+  cases e with
+  | fb k'' t'' d'' =>
+    simp only [fbOf_fb, Option.some.injEq, Prod.mk.injEq] at hr
+    obtain ⟨rfl, rfl⟩ := hr
+    exact ⟨_, he⟩
+  | run _ _ _ => simp at hr
+  | opened _ => simp at hr
+  | closed _ => simp at hr
+
+/-- the rolling sum of the fallback counter of kind `k`, read at a `now` that no delivered fallback event is after -/
+theorem cstr_rolling_getF (k : FbKind) (n : Nat) (dur : Int) (pn : Nat) (pdur : Int) (psize : Nat) (mh : Int)
+    (hn : 0 < n) (hw : 0 < tdiv dur n) (emits : List Emit) (now : Int) (h0 : 0 ≤ now)
+    (hle : ∀ k t d, Emit.fb k t d ∈ emits → t ≤ now) :
+    ((getF k ((All.new n dur pn pdur psize mh).feed emits).fb).sumAt now).2
+      = fbRolling n (tdiv dur n) (emits.foldl Hist.add {}) k now := by
+  unfold fbRolling
+  rw [feed_getF, hist_fb]
+  show ((incAll (getF k (FbStats.new n dur)) _).sumAt now).2 = _
+  rw [getF_new, incAll_read hn hw now h0, cstr_fbTimesOf_filter_length]
+  · congr 2
+    apply List.filter_congr
+    rintro ⟨k', t⟩ _
+    simp only [Bool.and_assoc]
+  · intro t ht
+    obtain ⟨d, hd⟩ := cstr_mem_fbTimesOf ht
+    exact hle k t d hd
+
+theorem cstr_fb_sums_snd (f : FbStats) (now : Int) :
+    (f.sums now).2 = fbKinds.map fun k => ((getF k f).sumAt now).2 := rfl
+
+theorem cstr_fb_totals_eq (f : FbStats) :
+    [f.successes.total, f.rejects.total, f.failures.total] = fbKinds.map fun k => (getF k f).total := rfl
+
+/-- the record `collectCommandMetrics` builds, once the four lists it reads are known pointwise -/
+theorem cstr_streamCounts_of (a : All) (now : Int) (isOpen : Bool) (r : Kind → Int) (tt : Kind → Int)
+    (fr : FbKind → Int) (ft : FbKind → Int)
+    (h1 : (a.run.sums now).2 = kinds.map r) (h2 : a.run.totals = kinds.map tt)
+    (h3 : (a.fb.sums now).2 = fbKinds.map fr)
+    (h4 : [a.fb.successes.total, a.fb.rejects.total, a.fb.failures.total] = fbKinds.map ft) :
+    a.streamCounts now isOpen =
+      { requestCount := r .success + r .failure + r .timeout + r .interrupt,
+        errorCount := r .failure + r .timeout,
+        rollS := r .success, rollRej := r .reject, rollF := r .failure, rollSC := r .shortCircuit, rollT := r .timeout,
+        rollBad := r .badRequest + r .interrupt,
+        cntS := tt .success, cntRej := tt .reject, cntF := tt .failure, cntSC := tt .shortCircuit,
+        cntT := tt .timeout, cntBad := tt .badRequest + tt .interrupt,
+        fbRollS := fr .success, fbRollRej := fr .reject, fbRollF := fr .failure,
+        fbCntS := ft .success, fbCntRej := ft .reject, fbCntF := ft .failure,
+        isOpen := isOpen } := by
+  have h4' : a.fb.successes.total = ft .success ∧ a.fb.rejects.total = ft .reject ∧ a.fb.failures.total = ft .failure := by
+    simpa [fbKinds] using h4
+  obtain ⟨e1, e2, e3⟩ := h4'
+  unfold All.streamCounts
+  simp only [h1, h2, h3, e1, e2, e3]
+  rfl
+
 end CM.Cons
